@@ -288,6 +288,16 @@ def generate(rng, index, cfg):
         pool = _pool(rng, swarm)
     finally:
         nbgen.LONG_P[0] = 0.0
+    swarm["wide_md"] = rng.random() < 0.06
+    if swarm["wide_md"]:
+        # saved widget state: hundreds of distinct metadata keys, so that one call consults hundreds of distinct paths
+        # (any per-path table in the library grows by that much in one request)
+        n = rng.choice([150, 300])
+        for mi, nb in enumerate(pool[0]):
+            nb["metadata"] = dict(nb.get("metadata") or {}, widgets={
+                "model_%03d" % i: {"model_name": "IntSliderModel", "state": {"value": (i * 7 + mi) % 101, "description": "s%d" % i}}
+                for i in range(n)})
+        swarm["w_config"] = max(swarm["w_config"], 0.15)
     flat = []
     index_of = {}
     for fi, fam in enumerate(pool):
